@@ -42,6 +42,20 @@ theorem C07_try_post_init (ctx : ImplContext) (hq : ctx.structAttr.quickReturn =
     | error e => rfl
     | ok inner => simp [hp, bind, Except.bind, pure, Except.pure]
 
+/-- the statement skeleton of one `quote!` body: which pieces are spliced in, in which order (the error type apart) -/
+def bodyOrder (t : List (List Gen.Tm)) : List (List String) := t.map fun b => (Gen.Tm.holesList b).filter (· != "err_ty")
+
+/-- C07-2 (try vs plain, skeletons; *table*, regenerated): each fallible skeleton splices exactly the same pieces in
+    exactly the same order as its infallible twin, in every dialect (plain / post-init) — so the same member
+    assignments, parent calls, `vars` and attributes run in the same order whether or not the conversion is fallible -/
+theorem C07_fallible_same_statement_order :
+    (bodyOrder Gen.tmpl_quote_try_from_trait == bodyOrder Gen.tmpl_quote_from_trait
+      && bodyOrder Gen.tmpl_quote_try_into_trait == bodyOrder Gen.tmpl_quote_into_trait
+      && bodyOrder Gen.tmpl_quote_try_into_existing_trait == bodyOrder Gen.tmpl_quote_into_existing_trait) = true := by decide
+
+/-- non-vacuity: the post-init dialect of `Into` really splices `init` before `post_init` -/
+example : (bodyOrder Gen.tmpl_quote_into_trait).head? = some ["dst", "init", "post_init"] := by decide
+
 /-- the source object named by the generated code depends only on the direction, not on owned / by-ref / fallible -/
 theorem C07_same_source_object (k k' : Kind) (h : k.isFrom = k'.isFrom) : srcIdent k = srcIdent k' := by
   unfold srcIdent; rw [h]
